@@ -13,6 +13,18 @@ Theorem C10_unique : forall nodes, NoDup (ids_of nodes) ->
 Proof. exact names_unique. Qed.
 Print Assumptions C10_unique.
 
+(* every reference resolves: a reference is spelled with the id of the object it means, and in the list of declared names that
+   spelling belongs to exactly one object -- the one carrying the id, hence of its class -- however ids and generated names mix *)
+Theorem C10_reference_denotes_exactly_one_object : forall nodes names, NoDup (ids_of nodes) -> name_nodes nodes = Ok names ->
+  forall k c i, nth_error nodes k = Some (c, Some i) -> forall k', nth_error names k' = Some i <-> k' = k.
+Proof.
+  intros nodes names N E k c i Hk k'. destruct (names_unique nodes N) as [names' [E' [L [ND [Hid _]]]]].
+  rewrite E in E'. injection E' as <-. pose proof (Hid k c i Hk) as H2. split.
+  - intros H. apply (proj1 (NoDup_nth_error names) ND); [apply nth_error_Some; rewrite H; discriminate|congruence].
+  - intros ->. exact H2.
+Qed.
+Print Assumptions C10_reference_denotes_exactly_one_object.
+
 (* duplicate ids are rejected: a 'duplicated object id' diagnostic is produced exactly when ids are not pairwise distinct *)
 Theorem C10_dup_id_rejected : forall nodes, dup_ids [] nodes = [] <-> NoDup (ids_of nodes).
 Proof. exact dup_ids_spec. Qed.
